@@ -1,8 +1,8 @@
-CONSTANTS Mags = {1, 8} Pages <- PagesX Rows = {1, 24} Cids = {1, 2} Nats = {0} Flofs = {1} Progs <- ProgsA
-          HdrFaults <- HdrAll RowFaults <- RowFew PktFaults <- PktAll TripFaults = {1, 4} MaxFaults = 2 MaxPk = 4
+CONSTANTS Mags = {1, 8} Pages <- PagesX Rows = {1} Cids = {1, 2} Nats = {0} Flofs = {1, 2} Progs <- ProgsA
+          HdrFaults <- HdrAll RowFaults <- RowFewA PktFaults <- PktAll TripFaults = {4} FlofFaults <- FlofFew MaxFaults = 2 MaxPk = 4
 SPECIFICATION Spec
 VIEW mcview
 CONSTRAINT Bounded
-INVARIANTS OneVersion RollingOne OnlyTransmitted EnhNotMisplaced
-PROPERTIES KeepsRows BadRowContained AddressFaultNothing HeaderFaultOnlyAbandons
+INVARIANTS OneVersion RollingOne OnlyTransmitted EnhNotMisplaced LinksContained
+PROPERTIES KeepsRows BadRowContained AddressFaultNothing HeaderFaultOnlyAbandons ParityErrorContained DamagedLinkKept
 CHECK_DEADLOCK FALSE
